@@ -257,6 +257,9 @@ def oracles(rec):
                                     f'declared for this transition are {of(("ab", "aa"), exp_calls)}')
                 if cur[1] != e['target']:
                     fail('C01', f'{src} --{e["event"]}--> should reach {e["target"]}, machine is in {cur[1]}')
+                    if not dyn:
+                        fail('C02', f'the method of {e["event"]} on a machine typed in {src} returns a machine typed in {cur[1]}; '
+                                    f'the declared, resolved target is {e["target"]}')
                 pl = toks[2] if evi['payload'] else '-'
                 for c in o['calls']:
                     if c['kind'] in ('cond', 'before', 'after') and c['payload'] != pl:
@@ -410,9 +413,10 @@ def _perm(names):
     srt = sorted(set(names))
     return dict(zip(srt, reversed(srt)))
 
-def rename_def(d):
+def rename_def(d, neutral=False):
     """the same definition with states, superstates, events and hooks consistently renamed: within each
-    kind the names are permuted so that their lexicographic order is reversed"""
+    kind the names are permuted so that their lexicographic order is reversed; with `neutral`, states,
+    superstates and events get plain fresh names instead (Nst0, Nsup0, nev0, ...)"""
     leaves, sups, events, hooks = [], [], [], {}
     for it in d:
         if it[0] == 'states':
@@ -422,7 +426,12 @@ def rename_def(d):
     for n, (kind, payload) in T.hooks_used(d).items():
         hooks.setdefault(n.rstrip('0123456789'), []).append(n)
     m = {}
-    m.update(_perm(leaves)); m.update(_perm(sups)); m.update(_perm(events))
+    if neutral:
+        m.update({n: f'Nst{i}' for i, n in enumerate(leaves)})
+        m.update({n: f'Nsup{i}' for i, n in enumerate(sups)})
+        m.update({n: f'nev{i}' for i, n in enumerate(events)})
+    else:
+        m.update(_perm(leaves)); m.update(_perm(sups)); m.update(_perm(events))
     for grp in hooks.values():
         m.update(_perm(grp))
     def r(x):
@@ -556,6 +565,12 @@ def run(tier, seed, work, repo, suspects=None):
                 continue
             ds.append({'id': f'sus{k}', 'feature': bool(feature), 'def': td, 'family': 'suspect', 'crate': len(crates), 'mod': k,
                        'suspect': True})
+            try:
+                rd, mapping = rename_def(td, neutral=True)
+                ds.append({'id': f'sus{k}r', 'feature': bool(feature), 'def': rd, 'family': 'suspect', 'crate': len(crates),
+                           'mod': 3000 + k, 'suspect': True, 'twin_of': f'sus{k}', 'twin_kind': 'ren', 'hook_map': mapping})
+            except Exception:
+                pass
         # one crate per feature setting
         for feat in (False, True):
             sub = [x for x in ds if x['feature'] == feat]
